@@ -38,3 +38,8 @@ package zebra
 //@   claims bounds div0 make
 //@ func (*vrfLabelBody).decodeFromBytes
 //@   claims bounds div0 make
+// (a ZAPI message is at most 65535 octets - its length field is a uint16; for inputs of 4 GiB and more the
+// uint32 offset arithmetic of this decoder could wrap)
+//@ func (*interfaceUpdateBody).decodeFromBytes
+//@   requires len(data) <= 65535
+//@   claims bounds div0 make
